@@ -67,7 +67,7 @@ def run_entry(args):
             return {"id": entry["id"], "status": "analysis-error", "why": str(err)[:200]}
         except Exception as err:
             return {"id": entry["id"], "status": "internal-error", "why": "%s: %s" % (type(err).__name__, str(err)[:200])}
-        fails = [o for o in obs if not o.ok]
+        fails = [o for o in obs if o.ok is False]
         # known findings of the unchanged tree are not "firing"
         from . import report
         known = report.load_known()
@@ -147,7 +147,7 @@ def run_global_benign(args):
                 out["errors"].append("%s: internal %s: %s" % (rname, type(err).__name__, str(err)[:160]))
                 continue
             for o in obs:
-                if not o.ok and not report.is_known(known, prop, o):
+                if o.ok is False and not report.is_known(known, prop, o):
                     out["new_failures"].append("%s:%s %s" % (o.oid, o.instance, o.construct[:80]))
         return out
     finally:
